@@ -16,7 +16,7 @@ from .. import scenes as sc
 PROPERTY = "C14"
 TECHNIQUE = ("explicit enumeration of all update_pose/query histories up to depth 3 on the real colliders, compared "
              "observation by observation with a freshly constructed collider (differential oracle) and the reference model")
-RULE = ("state = (type,size,margin) x history of <=3 update_pose calls (6 poses x {fresh array, item of a pose stack, caller-owned buffer overwritten in place}) x query "
+RULE = ("state = (type,size,margin) x history of <=3 update_pose calls (8 poses (two of them within numpy.allclose tolerance of another) x {fresh array, item of a pose stack, caller-owned buffer overwritten in place}) x query "
         "schedule {after each step, only at the end}; transition = one update_pose or one battery of 14 support queries, aabb, "
         "center, first_vertex, collider2origin, gjk distance + intersection against 2 partners; non-trivial = history with "
         ">= 2 updates to different poses; distinct = distinct (object, history, schedule)")
@@ -25,7 +25,7 @@ ASSUMPTIONS = ["a freshly constructed collider at the same pose is the reference
 CHUNK = 6
 STATE_TIMEOUT = 300.0
 
-POSES = [(0, 0), (5, 3), (24, 3), (26, 1), (28, 2), (13, 0)]
+POSES = [(0, 0), (5, 3), (24, 3), (26, 1), (28, 2), (13, 0), "near1", "near3"]
 TYPES = [t for t in sc.TYPES if t != "hull"]
 SIZES_USED = {t: [0, 3] for t in TYPES}
 SIZES_USED["mesh"] = [0, 6]
@@ -33,8 +33,24 @@ NMODES = 3   # fresh array, item of a pose stack, one caller-owned buffer overwr
 QDIRS = [0, 1, 2, 3, 4, 5, 6, 9, 14, 20, 26, 27, 28, 29]
 
 
+def _pose_of(p):
+    if isinstance(p, str):
+        # a pose that differs from pose 1 / pose 3 by less than numpy.allclose's default tolerances
+        # (small increments of a moving robot): tiny rotation and translation
+        base = POSES[int(p[-1])]
+        T = sc.pose(base[0], sc.OFFSETS[base[1]])
+        T = T.copy()
+        if p == "near1":      # pure micro-translation at ~0.5 from the origin
+            T[:3, 3] += [3e-6, -2e-6, 1e-6]
+        else:                 # 1 mm step 1000 units from the origin plus a 5e-10 rad rotation
+            T[:3, :3] = sc._axis_angle([0.3, -1.0, 0.2], 5e-10) @ T[:3, :3]
+            T[:3, 3] += [1e-3, 0.0, 2e-4]
+        return np.ascontiguousarray(T)
+    return sc.pose(p[0], sc.OFFSETS[p[1]])
+
+
 def _pose_arrays():
-    stack = np.ascontiguousarray(np.stack([sc.pose(o, sc.OFFSETS[f]) for o, f in POSES]))
+    stack = np.ascontiguousarray(np.stack([_pose_of(p) for p in POSES]))
     return stack
 
 
@@ -56,7 +72,7 @@ def enumerate_states(tier, seed):
             for m in (0, 1):
                 for first in range(len(POSES) * NMODES):
                     states.append({"t": t, "s": s, "m": m, "first": first, "depth": depth if tier == "thorough" or m == 0 else 2})
-    meta = {"bound_completed": "all update histories of length <= 3 (Margin: <= %d) over 18 update actions, both query schedules" %
+    meta = {"bound_completed": "all update histories of length <= 2 over 24 update actions and of length 3 over a reduced alphabet of 7 (Margin: length <= %d), both query schedules" %
                                (3 if tier == "thorough" else 2), "exhaustive": True}
     return states, meta
 
@@ -74,13 +90,17 @@ def _partners():
 def battery(col, is_mesh, partners):
     from distance3d import gjk
     obs = {}
+    # first_vertex and the algorithms that start from it are queried BEFORE any support query (lazy caches)
+    obs["first_vertex"] = np.asarray(col.first_vertex(), dtype=float).copy()
+    for i, p in enumerate(partners):
+        obs["libccd%d" % i] = bool(gjk.gjk_intersection_libccd(col, p))
+        obs["orig%d" % i] = float(gjk.gjk_distance_original(col, p)[0])
     for di in QDIRS:
         d = np.ascontiguousarray(sc.DIRS[di])
         p = np.asarray(col.support_function(d), dtype=float)
         obs["sup%d" % di] = float(p @ d) if is_mesh else p.copy()
     obs["aabb"] = np.asarray(col.aabb(), dtype=float).copy()
     obs["center"] = np.asarray(col.center(), dtype=float).copy()
-    obs["first_vertex"] = np.asarray(col.first_vertex(), dtype=float).copy()
     obs["c2o"] = np.asarray(col.collider2origin(), dtype=float).copy()
     for i, p in enumerate(partners):
         obs["gjk%d" % i] = float(gjk.gjk(col, p)[0])
@@ -94,8 +114,8 @@ def compare(o1, o2, L):
         if isinstance(b, bool):
             if a != b:
                 return k
-        elif k.startswith("gjk"):
-            if not abs(a - b) <= 1e-7 * L:
+        elif k.startswith("gjk") or k.startswith("orig"):
+            if not abs(a - b) <= (1e-7 if k.startswith("gjk") else 1e-5) * L:
                 return k
         else:
             if not np.allclose(a, b, rtol=0, atol=1e-11 * L):
@@ -116,10 +136,53 @@ def run_state(desc):
     fresh_cache = {}
     L = max(1.0, 1e3)
 
+    sib_cache = {}
+
+    def sib_obs():
+        if "o" not in sib_cache:
+            c, _ = sc.build(t, s, 3, sc.OFFSETS[3], mv, want_ref=False)
+            sib_cache["o"] = battery(c, is_mesh, partners)
+        return sib_cache["o"]
+
+    def build_sharing(t_, s_, mv_):
+        """Two colliders constructed from the very same argument arrays (as user code with shared parameters does)."""
+        from distance3d import colliders as C
+        T = sc.pose(3, sc.OFFSETS[3])
+        sz = sc.SIZES[t_][s_]
+        if t_ == "sphere":
+            c0 = np.ascontiguousarray(T[:3, 3].copy())
+            a, b = C.Sphere(c0, float(sz)), C.Sphere(c0, float(sz))
+        elif t_ == "disk":
+            c0, n0 = np.ascontiguousarray(T[:3, 3].copy()), np.ascontiguousarray(T[:3, 2].copy())
+            a, b = C.Disk(c0, float(sz), n0), C.Disk(c0, float(sz), n0)
+        elif t_ == "ellipse":
+            c0, ax, rr = np.ascontiguousarray(T[:3, 3].copy()), np.ascontiguousarray(T[:3, :2].T.copy()), np.array(sz, dtype=float)
+            a, b = C.Ellipse(c0, ax, rr), C.Ellipse(c0, ax, rr)
+        elif t_ == "ellipsoid":
+            rr = np.array(sz, dtype=float)
+            a, b = C.Ellipsoid(T, rr), C.Ellipsoid(T, rr)
+        elif t_ == "capsule":
+            a, b = C.Capsule(T, float(sz[0]), float(sz[1])), C.Capsule(T, float(sz[0]), float(sz[1]))
+        elif t_ == "cylinder":
+            a, b = C.Cylinder(T, float(sz[0]), float(sz[1])), C.Cylinder(T, float(sz[0]), float(sz[1]))
+        elif t_ == "cone":
+            a, b = C.Cone(T, float(sz[0]), float(sz[1])), C.Cone(T, float(sz[0]), float(sz[1]))
+        elif t_ == "box":
+            ss = np.array(sz, dtype=float)
+            a, b = C.Box(T, ss), C.Box(T, ss)
+        elif t_ == "mesh":
+            v, tri = sc.mesh_data(sz[0])
+            vv = np.ascontiguousarray(v * sz[1])
+            a, b = C.MeshGraph(T, vv, tri), C.MeshGraph(T, vv, tri)
+        else:
+            return sc.build(t_, s_, 3, sc.OFFSETS[3], mv_, want_ref=False)[0], None
+        if mv_:
+            a, b = C.Margin(a, float(mv_)), C.Margin(b, float(mv_))
+        return a, b
+
     def fresh_obs(pi):
         if pi not in fresh_cache:
-            o, f = POSES[pi]
-            c, _ = sc.build(t, s, o, sc.OFFSETS[f], mv)
+            c, _ = sc.build_explicit(t, sc.SIZES[t][s], stack[pi].copy(), mv, want_ref=False)
             fresh_cache[pi] = battery(c, is_mesh, partners)
         return fresh_cache[pi]
 
@@ -137,14 +200,19 @@ def run_state(desc):
             return pi, buf[0]
         return pi, stack[pi]
 
-    seqs = []
-    for k in range(1, depth + 1):
-        for rest in itertools.product(range(nact), repeat=k - 1):
-            seqs.append((desc["first"],) + rest)
+    # all histories of length <= 2 over the full action alphabet; length 3 over a reduced alphabet
+    # (fresh/stack/in-place representations, two ordinary poses and the two near-duplicate poses)
+    np_ = len(POSES)
+    reduced = [0, 1, 6, np_ + 1, np_ + 4, 2 * np_ + 3, 2 * np_ + 7]
+    seqs = [(desc["first"],)]
+    if depth >= 2:
+        seqs += [(desc["first"], x) for x in range(nact)]
+    if depth >= 3:
+        seqs += [(desc["first"], x, y) for x in reduced for y in reduced]
     sigs = set()
     for seq in seqs:
         for schedule in ("each", "end"):
-            col, _ = sc.build(t, s, 3, sc.OFFSETS[3], mv, want_ref=False)
+            col, sib = build_sharing(t, s, mv)
             buf[0] = None
             ok = True
             for step, action in enumerate(seq):
@@ -182,6 +250,17 @@ def run_state(desc):
                             viol.append(v)
                         ok = False
                         break
+            if ok and sib is not None and schedule == "end":
+                # a second collider built from the SAME constructor arrays must not be affected by the updates
+                try:
+                    bad = compare(battery(sib, is_mesh, partners), sib_obs(), L)
+                except Exception as e:  # noqa
+                    bad = "exception:" + type(e).__name__
+                if bad is not None:
+                    v = _viol("sibling_sharing_constructor_arrays_changed:" + ("sup" if bad.startswith("sup") else bad), cls, {"history": list(seq), "observation": bad})
+                    if v["sig"] not in sigs:
+                        sigs.add(v["sig"])
+                        viol.append(v)
             if not ok:
                 continue
         if len(seq) >= 2 and len(set(a % len(POSES) for a in seq)) >= 2:
